@@ -17,6 +17,7 @@ Decided (necessary conditions; not output equality):
 """
 from __future__ import annotations
 
+import ast
 from typing import Dict, List, Optional, Tuple
 
 from .. import poly
@@ -652,6 +653,172 @@ def r01f(ctx, classes: List[ClassInfo]):
     ctx.floor('R01f', 'exported hyper-parameter getters', n, 10)
 
 
+def export_call_sites_rule(ctx, rule: str):
+    """A searchable layer invoked at several call sites (weight sharing, multi-input forward):
+    each layer's export() is interpreted (finite interpreter, tensors and torch modules opaque)
+    on an fx graph in which the layer's module is called at two sites; the BatchNorm it
+    re-creates must be inserted after EVERY call site, otherwise the exported network
+    normalises one branch and not the other."""
+    from ..mini import Mini, Obj, Raised, Token, Unsupported
+    repo = ctx.repo
+
+    class Opq:
+        """opaque tensor / torch object"""
+        def __getitem__(self, k):
+            return Opq()
+
+        def __iter__(self):
+            return iter(())
+
+        def __bool__(self):
+            return True
+    n_cls = 0
+    for ci in pit_layer_classes(repo):
+        exp = ci.methods.get('export')
+        fwd = ci.methods.get('forward')
+        if exp is None or fwd is None or not any(
+                e.kind == 'call' and e.data[0][1] == ('attr', SELF, 'bn')
+                for p in paths(repo, fwd) for e in p.events):
+            continue
+        sub = Obj('Layer')
+        sub.attrs.update({'bn': Opq(), 'fold_bn': False, 'padding': 'same', 'bias': Opq()})
+        created = []
+
+        def mk_node(name, op, target, args):
+            o = Obj('Node')
+            o.attrs.update({'name': name, 'op': op, 'target': target, 'args': args,
+                            'all_input_nodes': [a for a in args if isinstance(a, Obj)],
+                            'meta': {}})
+            return o
+        a, b = mk_node('a', 'placeholder', 'a', ()), mk_node('b', 'placeholder', 'b', ())
+        s1 = mk_node('enc', 'call_module', 'enc', (a,))
+        s2 = mk_node('enc_1', 'call_module', 'enc', (b,))
+        out = mk_node('output', 'output', 'output', ((s1, s2),))
+        graph = Obj('Graph')
+        graph.attrs['nodes'] = [a, b, s1, s2, out]
+        mod = Obj('GraphModule')
+        mod.attrs['graph'] = graph
+
+        class _X(Mini):
+            def expr(self, e, env):
+                if isinstance(e, ast.Subscript):
+                    o = self.expr(e.value, env)
+                    if isinstance(o, Opq):
+                        return Opq()
+                    if isinstance(e.slice, ast.Slice) or not isinstance(o, (tuple, list, dict,
+                                                                            str)):
+                        return super().expr(e, env)
+                    k = self.expr(e.slice, env)
+                    if isinstance(k, Opq):
+                        return Opq()
+                    return o[k]
+                if isinstance(e, ast.BinOp):
+                    l, r = self.expr(e.left, env), self.expr(e.right, env)
+                    if isinstance(l, Opq) or isinstance(r, Opq):
+                        return Opq()
+                    return self.binop(e.op, l, r)
+                if isinstance(e, ast.Attribute):
+                    o = self.expr(e.value, env)
+                    if isinstance(o, Obj):
+                        if e.attr in o.attrs:
+                            return o.attrs[e.attr]
+                        if o.cls_name in ('Layer', 'pkg'):
+                            return Opq()
+                        return ('boundmethod', o, e.attr)
+                    if isinstance(o, Opq):
+                        return Opq()
+                    return ('boundmethod', o, e.attr)
+                return super().expr(e, env)
+
+            def truth(self, v):
+                if isinstance(v, tuple) and len(v) == 3 and v[0] == 'boundmethod' and \
+                        isinstance(v[1], Opq):
+                    return True
+                return super().truth(v)
+
+            def compare(self, op, x, y):
+                if isinstance(x, (Opq, tuple)) and isinstance(op, (ast.Eq, ast.NotEq)) and \
+                        (isinstance(x, Opq) or (len(x) == 3 and x[0] == 'boundmethod')):
+                    return isinstance(op, ast.NotEq)
+                return super().compare(op, x, y)
+
+            def builtin(self, name, args, kwargs, node_):
+                if name == 'type':
+                    return args[0].attrs.get('_cls') if isinstance(args[0], Obj) else Opq()
+                if name == 'str':
+                    return args[0] if isinstance(args[0], str) else repr(args[0])
+                if name == 'isinstance':
+                    return False
+                if name in ('int', 'sum', 'len', 'tuple', 'list') and any(
+                        isinstance(x, (Opq, tuple)) and not isinstance(x, (list, str))
+                        for x in args[:1]):
+                    return Opq() if name not in ('tuple', 'list') else ()
+                return super().builtin(name, args, kwargs, node_)
+
+            def apply(self, f, args, kwargs, node_):
+                if isinstance(f, Opq):
+                    return Opq()
+                return super().apply(f, args, kwargs, node_)
+
+            def method(self, o, name, args, kwargs, node_):
+                if isinstance(o, Opq):
+                    return Opq()
+                if isinstance(o, Obj) and o.cls_name == 'GraphModule':
+                    if name == 'get_submodule':
+                        return sub if args[0] == 'enc' else Opq()
+                    if name in ('add_submodule', 'delete_all_unused_submodules'):
+                        return None
+                if isinstance(o, Obj) and o.cls_name == 'Graph':
+                    if name in ('inserting_after', 'inserting_before'):
+                        return Opq()
+                    if name == 'call_module':
+                        tgt = args[0] if args else kwargs.get('module_name')
+                        ar = kwargs.get('args', args[1] if len(args) > 1 else ())
+                        nn_ = mk_node(str(tgt), 'call_module', tgt, tuple(ar))
+                        created.append(nn_)
+                        return nn_
+                    if name in ('erase_node', 'lint'):
+                        return None
+                if isinstance(o, Obj) and o.cls_name == 'Node' and name in (
+                        'replace_all_uses_with', 'replace_input_with'):
+                    return None
+                if isinstance(o, str):
+                    return getattr(o, name)(*args)
+                return super().method(o, name, args, kwargs, node_)
+        pk = Obj('pkg')
+        glob = {'torch': pk, 'nn': pk, 'fx': pk, 'cast': Token('cast', lambda _t, v: v)}
+        # the class object: helper (static) methods are callable on it; module-level helpers of
+        # the layer's module and of the modules it imports from its package are callable too
+        CLS = Obj('ClassObj')
+        for mname, mfn in ci.methods.items():
+            if mname != 'export':
+                CLS.attrs[mname] = Token('m:' + mname, lambda *a_, _n=mfn.node:
+                                         _X(glob).call_function(_n, list(a_)))
+        sub.attrs['_cls'] = CLS
+        glob[ci.name] = CLS
+        pkg_prefix = ci.module.name.rsplit('.', 1)[0]
+        for q, f_ in repo.functions.items():
+            if f_.cls is None and f_.module.name.startswith(pkg_prefix) and f_.name not in glob:
+                glob[f_.name] = Token('fn:' + f_.name, lambda *a_, _n=f_.node, **k_:
+                                      _X(glob).call_function(_n, list(a_), k_))
+        try:
+            _X(glob).call_function(exp.node, [s1, mod])
+        except (Unsupported, Raised) as ex:
+            raise AnalysisError(f'{rule}: {ci.name}.export is outside the interpreted subset: {ex}')
+        n_cls += 1
+        bn_sites = [c.attrs['args'][0] for c in created
+                    if str(c.attrs['target']).endswith('_bn') and c.attrs['args']]
+        covered = {id(x) for x in bn_sites if isinstance(x, Obj)}
+        ok = covered == {id(s1), id(s2)}
+        ctx.ob(rule, f'{ci.name}.export re-creates the BatchNorm at every call site', ok,
+               'one BatchNorm node after each of the two call sites' if ok else
+               f'the layer\'s module is called at two sites but the re-created BatchNorm is '
+               f'inserted after {len(covered)} of them (the node export() was called for): the '
+               f'other call site of a weight-shared layer loses its normalisation, so the '
+               f'exported network does not compute what the searched one does', where(exp))
+    ctx.floor(rule, 'layer classes with a trailing BatchNorm', n_cls, 3)
+
+
 def pad_guard_rule(ctx, rule: str):
     """The causal-padding adjustment of an exported Conv1d is decided by the layer's padding MODE
     only: it must also run when the searched receptive field leaves one tap (pad amount 0),
@@ -747,6 +914,7 @@ def run(ctx):
     r01f(ctx, classes)
     r01j(ctx, classes)
     pad_guard_rule(ctx, 'R01e')
+    export_call_sites_rule(ctx, 'R01l')
     # R01h: masks line up across flatten / concat boundaries (shared with C09 R09c)
     from . import c09
     before = len(ctx.obligations)
